@@ -215,7 +215,18 @@ def gen_class_case(rnd, idx, ctx, max_depth):
             ds = list(base)
             ds[i] = x
             variants.append({"decls": ds, "changed": i})
+    # "all combinations of spellings across the fields of one class": every member respelled at once
+    regular = [[x for x in others if not P.defect_tags(x["ty"])] for others in alts]
+    if sum(1 for o in regular if o) >= 2:
+        for _ in range(2):
+            variants.append({"decls": [rnd.choice(o) if o else b for o, b in zip(regular, base)], "changed": "all"})
     return {"idx": idx, "members": members, "variants": variants}
+
+
+def changed_idxs(v):
+    if v["changed"] is None or v["changed"] == "all":
+        return range(len(v["decls"]))
+    return [v["changed"]]
 
 
 # ----------------------------------------------------------------------------- deterministic lattices
@@ -446,7 +457,8 @@ def observe_fieldobj(fo):
 
 def observe_class(obj, names, candidates, ctx):
     """Everything the property compares, as plain data."""
-    from typedpy import Serializer
+    from typedpy import Serializer, Deserializer
+    n_deser = 0
     if isinstance(obj, BaseException):
         return {"def": E.exn_name(obj)}
     fields = obj.get_all_fields_by_name()
@@ -479,7 +491,16 @@ def observe_class(obj, names, candidates, ctx):
             ser = repr(sorted((k, E.reify(v)) for k, v in doc.items())) if isinstance(doc, dict) else repr(E.reify(doc))
         except Exception as ex:  # noqa
             ser = "serialize-raises:" + E.exn_name(ex)
-        out["beh"].append(("ok", state, ser))
+        # a second way IN: the serialized document deserialized by the same class (first few accepted candidates)
+        des = ""
+        if n_deser < 3 and not ser.startswith("serialize-raises:"):
+            n_deser += 1
+            try:
+                back = Deserializer(obj).deserialize(doc)
+                des = repr(sorted((n, E.reify(getattr(back, n), S.struct_attrs)) for n in names))
+            except Exception as ex:  # noqa
+                des = "deserialize-raises:" + E.exn_name(ex)
+        out["beh"].append(("ok", state, ser, des))
     return out
 
 
@@ -662,7 +683,7 @@ def run_class_cases(rep, cases, ctx, workdir, rnd, per_field):
             rep.count("behaviour", 2 * nv * len(cands))
             rep.stat(stream, "definition:" + base["def"])
             for v in c["variants"]:
-                for i in ([v["changed"]] if v["changed"] is not None else range(len(v["decls"]))):
+                for i in changed_idxs(v):
                     us = union_stat(v["decls"][i])
                     if us:
                         rep.stat("typing-unions", us)
@@ -672,6 +693,20 @@ def run_class_cases(rep, cases, ctx, workdir, rnd, per_field):
             for vi in range(1, nv):
                 v = c["variants"][vi]
                 i = v["changed"]
+                if i == "all":
+                    rep.stat(stream, "form:all-members-respelled")
+                    aspect, detail = first_difference(base, obs[0][vi])
+                    if aspect:
+                        # explained by the single-member variant carrying the same declaration?
+                        explained = any(w["changed"] not in (None, "all")
+                                        and w["decls"][w["changed"]] == v["decls"][w["changed"]]
+                                        and first_difference(base, obs[0][vj])[0]
+                                        for vj, w in enumerate(c["variants"]))
+                        if not explained:
+                            report(rep, "C13/combination/%s/%s~%s" % (
+                                aspect, "+".join(decl_sig(d) for d in c["variants"][0]["decls"]),
+                                "+".join(decl_sig(d) for d in v["decls"])), aspect, detail, c, 0, vi, False, False)
+                    continue
                 aspect, detail = first_difference(base, obs[0][vi])
                 rep.stat(stream, "form:" + P.top_form(v["decls"][i]["ty"]))
                 if aspect:
@@ -942,7 +977,11 @@ def run(rep, tier):
     n_classes = 120 if tier == "quick" else 900
     max_depth = 2 if tier == "quick" else 3
     per_field = 4 if tier == "quick" else 6
+    import time
+    t0 = time.time()
+    timing = {}
     proofs_ok, model_ok = core.standard_proof_obligations(rep, "C13", ["theories/Check/C13chk.vo"])
+    timing["build+proofs"] = round(time.time() - t0, 1)
     ctx = S.Context()
     workdir = core.workdir("c13")
     import glob
@@ -954,8 +993,11 @@ def run(rep, tier):
         cases += default_lattice(ctx, len(cases), tier)
         cases += future_length_lattice(ctx, len(cases), tier)
         batch = 35
+        t1 = time.time()
         for s0 in range(0, len(cases), batch):
             run_class_cases(rep, cases[s0:s0 + batch], ctx, workdir, rnd, per_field)
+        timing["oracle"] = round(time.time() - t1, 1)
+        t1 = time.time()
         # correspondence cases: every spelling used, in its own context, plus Cls[...] context and corruptions
         seen = set()
         spell_cases = []
@@ -971,11 +1013,7 @@ def run(rep, tier):
         # the deterministic lattices first: the limits below must never cut them off
         for c in sorted(cases, key=lambda c: 0 if c.get("lattice") else 1):
             for v in c["variants"]:
-                if v["changed"] is None:
-                    idxs = range(len(v["decls"]))
-                else:
-                    idxs = [v["changed"]]
-                for i in idxs:
+                for i in changed_idxs(v):
                     d = v["decls"][i]
                     add_spell("annot" if d["annot"] else "assign", d["ty"])
                     r = rnd.random()
@@ -1064,8 +1102,10 @@ def run(rep, tier):
                                {"declaration": decl_line("a", dc), "optional": dc["opt"], "observed": repr(o),
                                 "stored_annotation_length": stored_len(dc),
                                 "others": [(decl_line("a", a), repr(b)) for a, b in r["f"]["mismatch"][1:8]]})
+        timing["correspondence"] = round(time.time() - t1, 1)
     finally:
         core.cleanup(workdir)
+    rep.cov["timing_s"] = timing
     if not proofs_ok:
         from harness.props.c17 import broken_build
         broken_build(rep)
